@@ -259,6 +259,8 @@ func ZZ_AUX_step() {
 	case 2:
 		mp.Reset(zzCam{1, 1, 1})
 		zzAssert(csink.stops == 0 && csink.starts == 0 && csink.writes == 0 && ssink.stops == 0 && ssink.writes == 0, "C17: a camera reset does not disturb the continuous or test recording")
+		dd := mp.motionDetector
+		zzAssert(dd.backgroundFrames == 0 && dd.flooredFrames.currentIndex == 0 && dd.flooredFrames.oldest == 0 && !dd.flooredFrames.bufferFull, "C09/C12/C15: a camera reset always resets the detector, also when closing the recording fails")
 	}
 	zzAssert(!msink.viol, "C12: motion sink sees writes only inside start..stop, no start while open")
 	zzAssert(!csink.viol, "C12: continuous sink sees writes only inside start..stop, no start while open")
